@@ -3,11 +3,14 @@
 case = {"defs": [node, ...]   parents before children,
         "ops":  [op, ...]}
 node = {"path": [names], "params": pform|None, "cells": [[name, [params], expr], ...], "refs": [[name, int], ...],
-        "raw_params": "lambda ...: ..." (witnesses only)}
+        "raw_params": "lambda ...: ..." (witnesses only),
+        "bases": [path, ...] static spaces this one inherits from (inheritance class, (P) only; cells and references
+                 are derived, child spaces are not)}
 pform = {"sig": [[name, default|None], ...], "body": pbody}
 pbody = None | {"base": [names]|None, "refs": [[name, pexpr], ...]} | ["if", pexpr, pbody, pbody]
 pexpr = ["c", int] | ["p", name] | ["b", "+|-|*", pexpr, pexpr] | ["scall", path, cells] (call of a static cells; (P) only)
 expr  = ["c", int] | ["n", name] | ["b", op, e, e] | ["if", c, a, b] | ["call", cells, [e...]] | ["child", X, cells, [e...]]
+      | ["attr", X, name]  a reference of a child space read as X.name (inheritance class, (P) only)
 
 op = {"op": "getitem", "par": {"s": path} | {"h": handle index}, "pos": [ints], "kw": {name: int}, "style": "idx"|"call"}
    | {"op": "child", "h": i, "name": X}            keep the child-space object
@@ -20,6 +23,13 @@ op = {"op": "getitem", "par": {"s": path} | {"h": handle index}, "pos": [ints], 
    | {"op": "setglobal", "x": name, "v": int} | {"op": "delglobal", "x": name}      references of the model
    | {"op": "clearitems", "p": path} | {"op": "delitem", "p": path, "key": [ints]}
    | {"op": "setref_obj", "p": path, "x": name, "target": path, "c": cells}   (witness D15 only)
+   inheritance class ((P) only, generator dyninh.py):
+   | {"op": "getref", "h": i, "x": name}           read a reference through a kept handle (h.x)
+   | {"op": "newspace", ..., "bases": [path, ...]} | {"op": "addbases"|"removebases", "p": path, "bases": [path, ...]}
+   | {"op": "audit"}    every kept handle that is still valid, and every instance re-requested by its recipe, is
+                        compared member by member (references, cells values, dynamic child spaces, recursively)
+                        with the same instance of a FRESH model of the current definitions -> step["audit"]
+   case["inh"]: the final sweep is such an audit as well.
 
 Every getitem / child operation reserves the next handle slot (None when the request failed); an operation on
 an empty slot answers ["nohandle"] and is ignored by the checks.
@@ -28,7 +38,8 @@ result = {"steps": [{"out": ..., "live": [ikey...], "sh": [bool per space handle
                      "new": recipe of the handle obtained (or None), "same": [indices of earlier handles that are
                      the very same object], "fresh": outcome of the same request on a FRESH model built from the
                      current definitions (eval / getitem only)}],
-          "sweep": [[recipe, cells, args, live outcome, fresh outcome], ...]  (all cells of all valid handles at the end),
+          "sweep": [[recipe, cells, args, live outcome, fresh outcome], ...]  (all cells of all valid handles at the end;
+                    audits add entries [recipe, "<what> member path", [], live, fresh] for members that differ),
           "crash": text}
 out = ["val", int] | ["handle", key] | ["done"] | ["deleted"] | ["fail", exception type]
 recipe = {"s": path, "steps": [["item", key] | ["child", X], ...]}"""
@@ -61,6 +72,8 @@ def r_expr(e):
         return "%s(%s)" % (e[1], ", ".join(r_expr(a) for a in e[2]))
     if t == "child":
         return "%s.%s(%s)" % (e[1], e[2], ", ".join(r_expr(a) for a in e[3]))
+    if t == "attr":       # a reference of a child space: (P)-only vocabulary (inheritance class)
+        return "%s.%s" % (e[1], e[2])
     raise ValueError(e)
 
 
@@ -108,7 +121,7 @@ def nav_static(m, path):
     return o
 
 
-def add_node(m, nd):
+def add_node(m, nd, with_bases=True):
     parent = nav_static(m, nd["path"][:-1])
     if nd.get("raw_params"):
         formula = nd["raw_params"]
@@ -116,11 +129,17 @@ def add_node(m, nd):
         formula = r_pform(nd["params"])
     else:
         formula = None
-    sp = parent.new_space(nd["path"][-1], formula=formula)
+    if with_bases and nd.get("bases"):
+        sp = parent.new_space(nd["path"][-1], formula=formula, bases=[nav_static(m, b) for b in nd["bases"]])
+    else:
+        sp = parent.new_space(nd["path"][-1], formula=formula)
     for x, v in nd.get("refs", []):
         setattr(sp, x, v)
     for c, ps, body in nd.get("cells", []):
-        sp.new_cells(c, formula=r_cells(ps, body))
+        if c in sp.cells:      # a derived cells (inheritance class): setting its formula makes it the sub space's own
+            sp.cells[c].formula = r_cells(ps, body)
+        else:
+            sp.new_cells(c, formula=r_cells(ps, body))
     return sp
 
 
@@ -132,8 +151,15 @@ def build(defs, globs=None):
     m = mx.new_model("M%d" % _count[0])
     for x, v in (globs or {}).items():
         setattr(m, x, v)
+    made, late = set(), []
     for nd in defs:
-        add_node(m, nd)
+        ready = all(tuple(b) in made for b in nd.get("bases") or [])
+        add_node(m, nd, with_bases=ready)      # a base created after its sub space (add_bases in the history)
+        if not ready:
+            late.append(nd)
+        made.add(tuple(nd["path"]))
+    for nd in late:
+        nav_static(m, nd["path"]).add_bases(*[nav_static(m, b) for b in nd["bases"]])
     return m
 
 
@@ -194,6 +220,70 @@ def walk_live(m):
 from dynmirror import apply_edit
 
 
+# ---- audits (inheritance class): a space compared member by member ------------
+def snap(sp, depth=0):
+    """what a space serves: references (by attribute access and through .refs), every cells at a few arguments,
+    the dynamic child spaces (recursively), as a flat {member path: outcome}"""
+    res = {}
+    err, names = outcome(lambda: sorted(k for k in sp.refs if k != "__builtins__"))
+    if err:
+        return {"<refs>": err}
+    for x in names:
+        err, v = outcome(lambda: getattr(sp, x))
+        res["." + x] = err if err else (["val", v] if isinstance(v, int) and not isinstance(v, bool) else ["obj", type(v).__name__])
+        err, v = outcome(lambda: sp.refs[x])
+        res[".refs[%s]" % x] = err if err else (["val", v] if isinstance(v, int) and not isinstance(v, bool) else ["obj", type(v).__name__])
+    res["<refs>"] = ["names", names]
+    res["<cells>"] = ["names", sorted(sp.cells)]
+    for cname in sorted(sp.cells):
+        arity = len(sp.cells[cname].parameters)
+        for args in itertools.product((0, 2), repeat=arity) if arity <= 2 else [(1,) * arity]:
+            err, v = outcome(lambda: getattr(sp, cname)(*args))
+            res[".%s%s" % (cname, tuple(args))] = err if err else valout(v)
+    res["<spaces>"] = ["names", sorted(sp.named_spaces)]
+    if depth < 3:
+        for x in sorted(sp.named_spaces):
+            for k, v in snap(sp.named_spaces[x], depth + 1).items():
+                res[".%s%s" % (x, k)] = v
+    return res
+
+
+def audit(m, fresh_model, handles, recipes, limit=6, count=None):
+    """[recipe, what, [], live, fresh] for every member on which a kept valid handle, or the instance requested again
+    by its recipe, differs from the same instance of the fresh model"""
+    diffs = []
+    seen = []
+    for h, rec in zip(handles, recipes):
+        if h is None:
+            continue
+        ferr, fh = outcome(lambda: nav_recipe(fresh_model(), rec))
+        fsnap = None if ferr else snap(fh)
+        views = []
+        if h._is_valid():
+            views.append(("kept handle", None, h))
+        if rec not in seen:                       # the instance reached again from the static space
+            seen.append(rec)
+            err, again = outcome(lambda: nav_recipe(m, rec))
+            views.append(("requested again", err, again))
+        for what, err, obj in views:
+            if err or ferr:
+                if err != ferr:
+                    diffs.append([rec, "<%s>" % what, [], err or ["valid"], ferr or ["valid"]])
+                continue
+            if what == "requested again" and h._is_valid() and obj is not h:
+                diffs.append([rec, "<identity: the kept handle is valid but the instance requested again is another object>",
+                              [], ["other"], ["same"]])
+            live = snap(obj)
+            if count is not None:
+                count[0] += len(fsnap)
+            for k in sorted(set(live) | set(fsnap)):
+                if live.get(k) != fsnap.get(k):
+                    diffs.append([rec, "<%s> %s" % (what, k), [], live.get(k), fsnap.get(k)])
+                    if len(diffs) >= limit:
+                        return diffs
+    return diffs
+
+
 def run_case(case):
     close_all()
     defs = json.loads(json.dumps(case["defs"]))
@@ -209,10 +299,11 @@ def run_case(case):
     handles, recipes = [], []      # space handles
     chandles = []                  # cells handles
     steps = []
+    ncmp = [0]                     # members compared by audits
     for op in case["ops"]:
         k = op["op"]
         st = {"new": None, "same": None, "fresh": None}
-        if k in ("getitem", "child", "eval", "takecells") and "h" in (op["par"] if k == "getitem" else op) \
+        if k in ("getitem", "child", "eval", "takecells", "getref") and "h" in (op["par"] if k == "getitem" else op) \
                 and handles[(op["par"] if k == "getitem" else op)["h"]] is None:
             st["out"] = ["nohandle"]
             if k in ("getitem", "child"):
@@ -265,6 +356,16 @@ def run_case(case):
             if st["out"][0] != "deleted":
                 ferr, fv = outcome(lambda: getattr(nav_recipe(fresh_model(), recipes[op["h"]]), op["c"])(*op["args"]))
                 st["fresh"] = ferr if ferr else valout(fv)
+        elif k == "getref":
+            h = handles[op["h"]]
+            err, v = outcome(lambda: getattr(h, op["x"]))
+            st["out"] = err if err else valout(v)
+            if st["out"][0] != "deleted":
+                ferr, fv = outcome(lambda: getattr(nav_recipe(fresh_model(), recipes[op["h"]]), op["x"]))
+                st["fresh"] = ferr if ferr else valout(fv)
+        elif k == "audit":
+            st["out"] = ["done"]
+            st["audit"] = audit(m, fresh_model, handles, recipes, count=ncmp)
         elif k == "takecells":
             err, v = outcome(lambda: handles[op["h"]].cells[op["c"]])
             if err:
@@ -286,8 +387,15 @@ def run_case(case):
                     setattr(nav_static(m, op["p"]), op["x"], getattr(nav_static(m, op["target"]), op["c"]))
                 elif k == "delref":
                     delattr(nav_static(m, op["p"]), op["x"])
+                elif k == "newspace" and op.get("bases"):
+                    nav_static(m, op["q"][:-1]).new_space(op["q"][-1], formula=r_pform(op["params"]) if op["params"] else None,
+                                                          bases=[nav_static(m, b) for b in op["bases"]])
                 elif k == "newspace":
                     nav_static(m, op["q"][:-1]).new_space(op["q"][-1], formula=r_pform(op["params"]) if op["params"] else None)
+                elif k == "addbases":
+                    nav_static(m, op["p"]).add_bases(*[nav_static(m, b) for b in op["bases"]])
+                elif k == "removebases":
+                    nav_static(m, op["p"]).remove_bases(*[nav_static(m, b) for b in op["bases"]])
                 elif k == "delspace":
                     delattr(nav_static(m, op["q"][:-1]), op["q"][-1])
                 elif k == "setparams":
@@ -347,7 +455,9 @@ def run_case(case):
                     sweep.append([rec, "<members>", [], ["members", a], ["members", b]])
             else:
                 sweep.append([rec, "<members>", [], ["valid"], err])
-    return {"steps": steps, "sweep": sweep}
+        if case.get("inh"):
+            sweep += audit(m, fresh_model, handles, recipes, count=ncmp)
+    return {"steps": steps, "sweep": sweep, "audited_members": ncmp[0]}
 
 
 def main():
